@@ -17,8 +17,9 @@ from .values import (SBool, SInt, SReal, SStr, SBytes, SOpaque, Blob, Unsupporte
 class SymRange(object):
     """range(n) for a symbolic n: iteration needs a loop contract."""
 
-    def __init__(self, n):
-        self.n = n
+    def __init__(self, n, start=0):
+        self.n = n               # for range(n): the number of elements; in general the (exclusive) stop
+        self.start = start
 
     def __iter__(self):
         raise Unsupported('iteration over range(symbolic) without a loop contract')
@@ -245,7 +246,11 @@ def table(I):
         if any(is_symbolic(x) for x in a):
             if len(a) == 1:
                 return SymRange(a[0])        # only usable through a loop contract (ForSpec)
-            raise Unsupported('range over symbolic bounds with start/step')
+            if len(a) == 2:
+                r = SymRange(a[1], a[0])     # usable through LoopSpec's for-over-range scheme only
+                r.two_args = True
+                return r
+            raise Unsupported('range over symbolic bounds with a step')
         return range(*a)
     reg(range, m_range)
 
@@ -645,8 +650,8 @@ def fmt_percent(I, fmt, args):
         except Exception as e:
             raise PyRaise(e)
     import re
-    pieces = re.split(r'(%%|%[sdr])', fmt)
-    if re.search(r'%[^sdr%]', ''.join(p for p in pieces if not re.fullmatch(r'%%|%[sdr]', p))):
+    pieces = re.split(r'(%%|%[sdrx])', fmt)
+    if re.search(r'%[^sdrx%]', ''.join(p for p in pieces if not re.fullmatch(r'%%|%[sdrx]', p))):
         raise Unsupported('format spec in %r' % fmt)
     out = None
     it = iter(tup)
@@ -654,12 +659,22 @@ def fmt_percent(I, fmt, args):
     for p in pieces:
         if p == '%%':
             s = SStr(z3.StringVal('%'))
-        elif p in ('%s', '%d', '%r'):
+        elif p in ('%s', '%d', '%r', '%x'):
             try:
                 a = next(it)
             except StopIteration:
                 raise PyRaise(TypeError('not enough arguments for format string'))
             used += 1
+            if p == '%x':
+                # '%x' % n is format(n, 'x') for an int: the same (assumed) signed-hex function
+                if isinstance(a, SInt):
+                    s = hex_of_int(a)
+                elif isinstance(a, int) and not isinstance(a, bool):
+                    s = SStr(z3.StringVal('%x' % a))
+                else:
+                    raise Unsupported('%%x of %s' % type(a).__name__)
+                out = s if out is None else out + s
+                continue
             if p == '%d' and isinstance(a, (SStr, str, SBytes, bytes)) or p == '%d' and a is None:
                 raise PyRaise(TypeError('%d format: a real number is required'))
             s = _to_sstr(I, a, p[1])
